@@ -601,6 +601,19 @@ RunResult run_c11(const RunSpec &spec) {
     std::string ref_dump;
     if (out.cif) { int rc = cif_destroy(out.cif); (void) rc; }
     if (bad) throw *bad;
+    // the selected decoder is applied through the last byte: input that ends inside a character (an odd byte of UTF-16, a lone lead
+    // surrogate, a partial UTF-32 unit, a cut UTF-8 sequence) is an invalid code sequence in that encoding -> CIF_INVALID_CHAR is reported
+    if (spec.run % 3 == 1 && decoder_is_true && !force && enc <= 4) {
+        ustr clef; clef += (char16_t) 0xd834; clef += (char16_t) 0xdd1e;
+        std::vector<unsigned char> tail = enc_text(clef, enc, false); size_t keep = (size_t) r.range(1, 3);
+        std::vector<unsigned char> cut = bytes; cut.insert(cut.end(), tail.begin(), tail.begin() + (long) keep);
+        ParseOutcome oc = run_parse(cut, o, sc, NULL);
+        bool reported = false; for (auto &e : oc.errs) if (e.code == CIF_INVALID_CHAR) reported = true;
+        ev("truncated-character probe: %zu of %zu bytes of U+1D11E appended -> %s errors: %s", keep, tail.size(), rc_name(oc.rc), errs_str(oc.errs, 10).c_str());
+        if (oc.cif) { int rc = cif_destroy(oc.cif); (void) rc; }
+        g_stats.inc("c11.truncated_char_probe");
+        if (!reported) DVIOLATE("encoding", strprintf("truncated_char_unreported:%s", ENCN[enc]), "input decoded as %s ends %zu byte(s) into a %zu-byte character, but no CIF_INVALID_CHAR was reported (errors: %s)", ENCN[enc], keep, tail.size(), errs_str(oc.errs, 10).c_str());
+    }
     // same text under every signature-carrying encoding gives the same content (and the same dialect)
     if (spec.run % 3 == 0) {
         std::string first; int first_enc = -1;
